@@ -78,6 +78,9 @@ func c14Triple(rng *rand.Rand) ruleTriple {
 			if strings.HasPrefix(t.Val, "=") {
 				t.Val = "x" + t.Val
 			}
+			if strings.HasPrefix(t.Val, "'") && rng.Intn(3) == 0 {
+				t.Val = "=" + t.Val // raw form of an already quoted pattern: written as it is
+			}
 		default:
 			t.Val = c14Segmented(rng, 3, true)
 			if t.Key != "in" && t.Key != "include" && rng.Intn(12) == 0 {
@@ -121,7 +124,10 @@ func c14Render(t ruleTriple) (text, renderedVal string) {
 		default:
 			renderedVal = t.Val
 		}
-		if strings.HasPrefix(t.Val, "=") && t.Key != "in" && t.Key != "include" && t.Key != "re" {
+		if t.Key == "re" && strings.HasPrefix(t.Val, "='") {
+			renderedVal = t.Val[1:]
+			text += t.Val
+		} else if strings.HasPrefix(t.Val, "=") && t.Key != "in" && t.Key != "include" && t.Key != "re" {
 			// raw form: a value that already starts with '=' is written as it is (GenValidKV adds no
 			// second '='); everything after that first '=' is the value — it may itself start with '='
 			renderedVal = t.Val[1:]
